@@ -18,8 +18,8 @@ COMMON_ASSUMPTIONS = [
 
 
 def H(name, module, tier="quick", timeout=600, unwind=None, bounds="", encodes=(), stubs=(), stubbing=False,
-      features=(), seed_group=None):
-    return {"name": name, "module": module, "tier": tier, "timeout": timeout, "unwind": unwind,
+      features=(), seed_group=None, mem_gb=20):
+    return {"name": name, "module": module, "tier": tier, "timeout": timeout, "unwind": unwind, "mem_gb": mem_gb,
             "bounds": bounds, "encodes": list(encodes), "stubs": list(stubs), "stubbing": stubbing,
             "features": list(features), "seed_group": seed_group}
 
